@@ -119,6 +119,7 @@ REVERTS = {
     "revert-D11-include-name": ("00d9a6b", ["C10"]),
     "revert-alias-array-helper-collision": ("023e641", ["C10"]),
     "revert-include-guard-collision": ("867c345", ["C10"]),
+    "revert-enum-member-digit-split": ("3c754e2", ["C15"]),
 }
 for _n, (_c, _p) in REVERTS.items():
     CATALOGUE[_n] = (_p, [("@revert", _c, "")], f"revert of fix {_c}")
@@ -145,6 +146,15 @@ BENIGN = {
     "benign-py-runtime-refactor": (["C01", "C02", "C14"], [("lib/py/bitprotolib/bp.py", "    if k == 0:\n        return (1 << c) - 1\n    return (1 << ((k + 1 + c) - 1)) - (1 << ((k + 1) - 1))", "    return ((1 << c) - 1) << k"),
                                                             ("lib/py/bitprotolib/bp.py", "    return min(n - j, 8 - (j % 8), 8 - (i % 8))", "    return min(n - j, 8 - (j & 7), 8 - (i & 7))")],
                                    "Python runtime helpers rewritten equivalently"),
+    "benign-py-helper-renamed": (["C01", "C02", "C07"], [("lib/py/bitprotolib/bp.py", "def get_mask(k: int, c: int) -> int:", "def byte_mask(k: int, c: int) -> int:"),
+                                                         ("lib/py/bitprotolib/bp.py", "    mask = get_mask(ctx.i % 8, c)\n    # Shift and then take mask to get bits to copy.\n    d = smart_shift(b, shift) & mask\n    # Copy bits to buffer s.",
+                                                          "    mask = byte_mask(ctx.i % 8, c)\n    # Shift and then take mask to get bits to copy.\n    d = smart_shift(b, shift) & mask\n    # Copy bits to buffer s."),
+                                                         ("lib/py/bitprotolib/bp.py", "    mask = get_mask(j % 8, c)", "    mask = byte_mask(j % 8, c)")],
+                                 "a Python runtime helper renamed (the contract on it cannot attach)"),
+    "benign-c-be-memcpy": (["C06", "C14"], [("lib/c/bitproto.c", "        BpCopyBufferBits(nbits, le, ctx->s, 0, ctx->i);\n        // Little-endian staging buffer -> native big-endian bytes.\n        for (int k = 0; k < size; k++) p[size - 1 - k] = le[k];",
+                                             "        if ((ctx->i & 7) == 0 && (nbits & 7) == 0) {\n            // Byte aligned: the wire bytes are the little-endian image already.\n            memcpy(le, ctx->s + (ctx->i >> 3), (size_t)(nbits >> 3));\n        } else {\n            BpCopyBufferBits(nbits, le, ctx->s, 0, ctx->i);\n        }\n        // Little-endian staging buffer -> native big-endian bytes.\n        for (int k = 0; k < size; k++) p[size - 1 - k] = le[k];"),
+                                            ("lib/c/bitproto.c", '#include "bitproto.h"\n', '#include "bitproto.h"\n\n#include <string.h>\n')],
+                           "big-endian decode copies byte-aligned whole-byte fields from the wire with memcpy (byte-order neutral, but a wide access)"),
     "benign-c-runtime-refactor": (["C03", "C14", "C06"], [("lib/c/bitproto.c", "static inline int BpMin(int a, int b) { return (a < b) ? a : b; }", "static inline int BpMin(int a, int b) { return (b < a) ? b : a; }"),
                                                            ("lib/c/bitproto.c", "                    dst[0] = (src[0] >> si) & 0xff;", "                    dst[0] = (unsigned char)(src[0] >> si);")],
                                   "C runtime expressions rewritten equivalently"),
@@ -226,6 +236,8 @@ def run_one(name, tier="quick", keep=False, props=None):
 def run_seeded(sid, tier="quick"):
     sd = os.path.join(VERIF, "seeded", sid)
     meta = json.load(open(os.path.join(sd, "meta.json")))
+    if meta.get("superseded"):
+        return {"seeded": sid, "superseded": meta["superseded"][:120], "results": {}}
     d = make_worktree("seeded-" + sid)
     out = {"seeded": sid, "results": {}}
     try:
